@@ -940,6 +940,7 @@ class Translator:
         self.ext_params = {}      # python function name -> externals it needs as leading parameters
         self.defaults = {}        # function name -> (number of parameters, default expressions)
         self.method_arity = {}    # Class.method -> number of parameters (self included)
+        self.rejected = []        # "module: function: reason" of every function left out
         self.dataclasses = {}     # class name -> field names (plain dataclasses without defaults or methods)
         self.may_raise = {"StopIteration": set()}   # translated functions that contain next() / raise StopIteration
         self.str_dispatch_fuelled = False
@@ -993,7 +994,15 @@ class Translator:
                 raise Reject(f"cannot parse {p}: {ex}")
             self.out.append(f"(* ===== {mod} ===== *)")
             for qual in names:
-                self.out.append(self.one(tree, mod, qual))
+                # a function outside the fragment is left out (with the reason as a comment): the proofs about it -
+                # and the translations of the functions that call it, rejected in turn - fail, and with them exactly
+                # the property files that cite them; the other translations stay checked
+                try:
+                    self.out.append(self.one(tree, mod, qual))
+                except Reject as ex:
+                    msg = str(ex).replace("*)", "* )").replace("(*", "( *").replace('"', "'")
+                    self.rejected.append(f"{mod}: {qual}: {ex}")
+                    self.out.append(f"(* REJECTED {qual}: {msg} *)\n")
         return "\n".join(self.out) + "\n"
 
     def find(self, tree, mod, qual):
@@ -1103,7 +1112,10 @@ def main():
         sys.exit(64)
     repo, out = Path(sys.argv[1]), Path(sys.argv[2])
     try:
-        text = Translator(repo).run()
+        tr = Translator(repo)
+        text = tr.run()
+        for r in tr.rejected:
+            print(f"gen_source: REJECTED: {r}", file=sys.stderr)
     except Reject as ex:
         print(f"gen_source: REJECTED: {ex}", file=sys.stderr)
         write_stub(out, str(ex))
